@@ -218,3 +218,47 @@ def mixed_ids_stream(ck, label, n):
     answers = ck.driver('Sem', [G.request(c) for c in cases])
     outs = R.run_engine(cases)
     return [(c, ) + tuple(R.compare(c, a, e)) + (e, a) for c, a, e in zip(cases, answers, outs)]
+
+
+def clause_sees_previous_stream(ck, label, n):
+    """Targeted stream: a clause applied DIRECTLY to the result of another clause must see that result — a filter / calc / keep
+    that names a component the previous calc OVERWROTE or the previous rename introduced.  Nested chain and two statements."""
+    r = ck.rng
+    g = G.Gen(r, families=['num1'])
+    cases = []
+    for i in range(n):
+        mt = r.choice(['Number', 'Integer'])
+        ids = [('Id_1', 'Integer')] + ([('Id_2', 'String')] if r.random() < 0.5 else [])
+        keys = set()
+        for _ in range(r.choice([3, 4, 6, 8])):
+            keys.add(tuple(r.choice(G.ID_INT) if t == 'Integer' else r.choice(G.ID_STR) for _, t in ids))
+        rows = [tuple(list(k) + [g.value(mt), g.value(mt)]) for k in sorted(keys)]
+        r.shuffle(rows)
+        env = {'DS_1': {'ids': list(ids), 'meas': [('Me_1', mt), ('Me_2', mt)], 'rows': rows}}
+        k_, c_, t_ = r.choice([2, 3, 10, -1]), r.choice([0, 1, 5, -3]), r.choice([0, 2, 5, 10, 20])
+        cmp_v, cmp_s = r.choice([('>', 'gt'), ('<', 'lt'), ('>=', 'ge'), ('<=', 'le'), ('=', 'eq'), ('<>', 'ne')])
+        e_vtl, e_sx = 'Me_1 * %d + %d' % (k_, c_) if k_ >= 0 and c_ >= 0 else '(Me_1 * (%d)) + (%d)' % (k_, c_), \
+            '(bin add (bin mul (col "Me_1") (const (i %d))) (const (i %d)))' % (k_, c_)
+        first = r.choice(['calc-overwrite', 'calc-overwrite', 'rename', 'calc-swap'])
+        if first == 'calc-overwrite':
+            a_vtl, a_sx, name = 'calc Me_1 := %s' % e_vtl, '(calc %%s (("Me_1" %s)))' % e_sx, 'Me_1'
+        elif first == 'rename':
+            a_vtl, a_sx, name = 'rename Me_1 to Me_9', '(rename %s (("Me_1" "Me_9")))', 'Me_9'
+        else:   # simultaneous: Me_1 gets the old Me_2 and the other way round
+            a_vtl, a_sx, name = 'calc Me_1 := Me_2, Me_2 := Me_1', '(calc %s (("Me_1" (col "Me_2")) ("Me_2" (col "Me_1"))))', 'Me_1'
+        second = r.choice(['filter', 'filter', 'calc', 'keep'])
+        if second == 'filter':
+            b_vtl, b_sx = 'filter %s %s %d' % (name, cmp_v, t_), '(filter %%s (bin %s (col "%s") (const (i %d))))' % (cmp_s, name, t_)
+        elif second == 'calc':
+            b_vtl, b_sx = 'calc Me_5 := %s + 1' % name, '(calc %%s (("Me_5" (bin add (col "%s") (const (i 1))))))' % name
+        else:
+            b_vtl, b_sx = 'keep %s' % name, '(keep %%s ("%s"))' % name
+        flat = (i % 3 == 2)
+        inner_sx = a_sx % '(ds DS_1)'
+        sx = b_sx % inner_sx
+        vtl = ('T_1 := DS_1[%s]; DS_r <- T_1[%s];' % (a_vtl, b_vtl)) if flat else ('DS_r <- DS_1[%s][%s];' % (a_vtl, b_vtl))
+        cases.append({'family': 'num1', 'env': env, 'vtl': vtl, 'sx': sx, 'ops': [first.split('-')[0], second], 'max_meas': 2, 'post': None,
+                      'ids': ids, 'meas': [('Me_1', mt), ('Me_2', mt)], 'flat': flat, 'depth': 2, 'stream': label})
+    answers = ck.driver('Sem', [G.request(c) for c in cases])
+    outs = R.run_engine(cases)
+    return [(c, ) + tuple(R.compare(c, a, e)) + (e, a) for c, a, e in zip(cases, answers, outs)]
